@@ -49,6 +49,16 @@ func (els *EncryptedLeaseSet) Verify() error {
 // present, otherwise constructs a key from sigType + blindedPublicKey.
 func (els *EncryptedLeaseSet) signingPublicKeyForVerification() (types.SigningPublicKey, error) {
 	if els.HasOfflineKeys() && els.offlineSignature != nil {
+		// The transient key may only speak for this EncryptedLeaseSet if the blinded signing key signed it:
+		// verify the offline signature block before trusting the transient key.
+		authorisingKey := els.blindedPublicKey
+		authorised, err := els.offlineSignature.VerifySignature(authorisingKey)
+		if err != nil {
+			return nil, oops.Errorf("failed to verify offline signature: %w", err)
+		}
+		if !authorised {
+			return nil, oops.Errorf("offline signature is not valid under the blinded signing key")
+		}
 		transientKeyBytes := els.offlineSignature.TransientPublicKey()
 		transientSigType := els.offlineSignature.TransientSigType()
 		spk, err := key_certificate.ConstructSigningPublicKeyByType(
